@@ -182,8 +182,9 @@ def subset_names(rng, names, lo=1):
     return sorted(rng.sample(list(names), min(k, len(names))))
 
 
-def gen_pair(rng, family, repo, ta=None, tb=None, thorough=False):
-    """-> (family, src_spec, dst_spec).  ta/tb: source/target atmosphere types (None = random)."""
+def gen_pair(rng, family, repo, ta=None, tb=None, thorough=False, shipped=None):
+    """-> (family, src_spec, dst_spec).  ta/tb: source/target atmosphere types (None = random);
+    shipped: the tests/mulgrid file to use for the shipped-* families (None = random small one)."""
     ta = rng.randrange(3) if ta is None else ta
     tb = rng.randrange(3) if tb is None else tb
     if family == 'rect':
@@ -233,13 +234,13 @@ def gen_pair(rng, family, repo, ta=None, tb=None, thorough=False):
         if rng.random() < 0.6: a = surface_op(rng, a, repo)
         b = copy.deepcopy(a)
     elif family == 'shipped-self':
-        f = rng.choice(SHIPPED[:3] if not thorough else SHIPPED)
+        f = shipped or rng.choice(SHIPPED[:3] if not thorough else SHIPPED)
         a = {'base': {'file': f, 'atmos_type': ta}, 'ops': []}
         b = {'base': {'file': f, 'atmos_type': tb}, 'ops': []}
         if rng.random() < 0.5:
             b['ops'].append(['translate', [rng.uniform(-30, 30), rng.uniform(-30, 30), 0.]])
     elif family == 'shipped-rect':
-        f = rng.choice(SHIPPED[:3] if not thorough else SHIPPED[:6])
+        f = shipped or rng.choice(SHIPPED[:3] if not thorough else SHIPPED[:6])
         a = {'base': {'file': f, 'atmos_type': ta}, 'ops': []}
         g = build_geo(a, repo)
         (x0, y0), (x1, y1) = g.bounds
